@@ -19,7 +19,7 @@ RULE = ('Noll indices 1..231 (quick) / 1..1326 (thorough) enumerated completely 
 ASSUMPTIONS = ['the sign of sine modes is not pinned by the property: +sin and -sin are both accepted (per mode)']
 PLAN = {'quick': {'gen': 8}, 'thorough': {'gen': 16, 'tests': 1, 'docs': 1}}
 REQUIRED_BUCKETS = ['index', 'value:normalized', 'value:unnormalized', 'gram:diag', 'gram:offdiag', 'coords:even', 'coords:odd',
-                    'coords:offcentre', 'support-only', 'coords:shared', 'basis', 'compose:normalized', 'compose:unnormalized', 'theta:undefined-for-m=0', 'coords:narrow-float', 'value:high-order', 'coords:rho>1', 'coords:result-edited', 'zero-outside:overflow', 'coords:theta-only']
+                    'coords:offcentre', 'support-only', 'coords:shared', 'basis', 'compose:normalized', 'compose:unnormalized', 'theta:undefined-for-m=0', 'coords:narrow-float', 'value:high-order', 'coords:rho>1', 'coords:result-edited', 'zero-outside:overflow', 'coords:theta-only', 'index:type=uint64', 'index:type=int', 'value:index-type']
 REQUIRED_ANCHORS = ['probe:zernike_index', 'anchor:R', 'anchor:zernike', 'anchor:zernike_coordinates']
 REQUIRED_ORACLES = ['index=noll', 'index:bijective', 'mode=textbook', 'R(1)=1', 'gram=I', '|Z|<=1', 'rho=centroid-distance',
                     'origin=centroid', 'zero-outside', 'support-only']
@@ -84,9 +84,17 @@ def workload(ctx, lentil):
         if j % ctx.nshards != ctx.shard:
             continue
         ctx.case({'index': j}, ['index'], nontrivial=j > 1)
+        # the index arrives in whatever integer type the caller's loop produced (range, np.arange of any integer dtype, a
+        # column of a table): every one of them names the same mode
+        types = [int, np.int64, np.uint64, np.int16, np.uint32, np.intp, np.uint16, np.int32]
+        jt = types[(j // max(ctx.nshards, 1)) % len(types)](j)
+        ctx.bucket('index:type=' + type(jt).__name__)
         try:
-            m, n = Z.zernike_index(j)        # probe decides the value
-        except Exception:
+            m, n = Z.zernike_index(jt)        # probe decides the value
+        except Exception as e:
+            ctx.check(False, 'index=noll', f'index|raises={type(e).__name__}|{type(jt).__name__}',
+                      'a valid Noll index is refused because of the integer type it arrives in',
+                      {'index': j, 'type': type(jt).__name__, 'error': repr(e)[:200]})
             continue
         seen[j] = (int(n), int(m))
     # bijectivity is decided over the whole range in one shard
@@ -144,10 +152,16 @@ def workload(ctx, lentil):
             desc['coords'] = np.dtype(narrow).name
         else:
             rho_arg = rho
+        j_arg = j
+        if i % 7 == 5:
+            # the mode number as an element of an integer array of whatever dtype
+            j_arg = [np.uint64, np.int16, np.uint32, np.int64, np.uint16][(i // 7) % 5](j)
+            ctx.bucket('value:index-type')
+            desc['index_type'] = type(j_arg).__name__
         try:
-            got = lentil.zernike(mask, j, normalize=normalize, rho=gen.layout(rng, rho_arg), theta=gen.layout(rng, theta_arg))
+            got = lentil.zernike(mask, j_arg, normalize=normalize, rho=gen.layout(rng, rho_arg), theta=gen.layout(rng, theta_arg))
         except Exception as e:
-            ctx.check(False, 'mode=textbook', f'mode|raises={type(e).__name__}', str(e), desc)
+            ctx.check(False, 'mode=textbook', f'mode|raises={type(e).__name__}' + ('|index-type' if j_arg is not j else ''), str(e), desc)
             continue
         n, m, par = _NOLL[j]
         ref = rm.zernike_value(n, m, par, rho, theta, normalize, sine_sign=+1, exact=True)
